@@ -91,8 +91,27 @@ func c11sFactsParse(c *factsCtx, outdir string) error {
 			})
 		}
 	}
+	// Parser.ConsumeInvalidInput: does it look at the look-ahead token before skipping to the next LF?
+	skip := []string{"unknown"}
+	if fd := c11sFindFunc(files, "ConsumeInvalidInput"); fd != nil {
+		skip = c11sSkeleton(c, fd.Body.List)
+	}
+	// classified here (not by comparing strings in Lean: the model consults the flag on every skipped line, and
+	// string comparison is what the Lean kernel is slowest at)
+	stopsAtLF := "none"
+	switch strings.Join(skip, " ; ") {
+	case "_, err := p.scanner.ConsumeUntilNewLine() ; return err":
+		stopsAtLF = "(some false)"
+	case "if p.parser.Check(rfcparser.TokenTypeLF) { return nil } ; _, err := p.scanner.ConsumeUntilNewLine() ; return err":
+		stopsAtLF = "(some true)"
+	}
 	var b strings.Builder
 	b.WriteString("namespace Gluon.Facts\n\n")
+	b.WriteString("/-- skeleton of `Parser.ConsumeInvalidInput` (imap/command/parser.go) -/\n")
+	fmt.Fprintf(&b, "def consumeInvalidInputShape : List String := %s\n\n", leanStrList(skip))
+	b.WriteString("/-- that skeleton classified: `some false` = `ConsumeUntilNewLine()` unconditionally; `some true` = preceded by\n")
+	b.WriteString("    `if p.parser.Check(rfcparser.TokenTypeLF) { return nil }`; `none` = any other shape -/\n")
+	fmt.Fprintf(&b, "def consumeInvalidInputStopsAtLF : Option Bool := %s\n\n", stopsAtLF)
 	b.WriteString("/-- `const maxSearchKeyDepth` (imap/command/search.go); `none` = there is no such constant -/\n")
 	fmt.Fprintf(&b, "def searchMaxDepth : Option Nat := %s\n\n", maxDepth)
 	b.WriteString("/-- the first statement of `parseSearchKey` -/\n")
